@@ -86,6 +86,21 @@ impl OwnedEntry {
     }
 }
 
+/// Makes sure a directory and all its ancestors are registered, each of them
+/// being listed exactly once in its parent.
+fn register_dir(dirs: &mut HashMap<SharedString, Vec<OwnedEntry>>, id: SharedString) {
+    if dirs.contains_key(&id) {
+        return;
+    }
+    dirs.insert(id.clone(), Vec::new());
+
+    if let Some(parent_id) = DirEntry::Directory(&id).parent_id() {
+        let parent_id = SharedString::from(parent_id);
+        register_dir(dirs, parent_id.clone());
+        dirs.entry(parent_id).or_default().push(OwnedEntry::Dir(id));
+    }
+}
+
 /// Register a file of an archive in maps.
 fn register_file(
     file: tar::Entry<'_, impl io::Read>,
@@ -134,7 +149,7 @@ fn register_file(
         let id = id_builder.join();
 
         // Register the file in the maps.
-        let entry = if file.header().entry_type().is_file() {
+        if file.header().entry_type().is_file() {
             let ext = crate::utils::extension_of(&path)?.into();
             let desc = FileDesc(id, ext);
 
@@ -142,14 +157,13 @@ fn register_file(
             let size = file.size();
 
             files.insert(desc.clone(), (start, size));
-            OwnedEntry::File(desc)
+            register_dir(dirs, parent_id.clone());
+            dirs.entry(parent_id)
+                .or_default()
+                .push(OwnedEntry::File(desc));
         } else {
-            if !dirs.contains_key(&id) {
-                dirs.insert(id.clone(), Vec::new());
-            }
-            OwnedEntry::Dir(id)
-        };
-        dirs.entry(parent_id).or_default().push(entry);
+            register_dir(dirs, id);
+        }
 
         Some(())
     })()
